@@ -1,6 +1,7 @@
 (* Extraction of the executable model to OCaml.  ExtrOcamlBasic only: N, positive and nat
    stay Coq datatypes; no Extract Constant of our own. *)
 From Coq Require Import Extraction ExtrOcamlBasic.
-From Portus Require Import Codec CodecSpec.
+From Portus Require Import Codec CodecSpec Cursor.
 Extraction Language OCaml.
-Extraction "model.ml" from_buf serialize_msg decode_all utf8_valid c04_ok msg_in_range.
+Extraction "model.ml" from_buf serialize_msg decode_all utf8_valid c04_ok msg_in_range
+  run_script spec_run.
